@@ -21,8 +21,10 @@ def sam_bin(q):
     return int(q) if q < 2 else 6 if q < 10 else 15 if q < 20 else 25 if q < 29 else 35 if q < 39 else 40
 
 
-@contract("aldy.sam.Sample._parse_read.bin_quality", symbolic=False)
+@contract("aldy.sam.Sample._parse_read.bin_quality")
 def _(q):
+    # q is a mapping quality (int), a base quality (int) or the mean base quality of an insertion (float)
+    types(q="float")
     requires(q >= 0)
     ensures(result == sam_bin(q), label="table")
     ensures(typed(result, "int"), label="int")
@@ -34,8 +36,9 @@ def _(q):
 # ----------------------------------------------------------------------------------------------------
 # read eligibility (C06, "read eligibility rules" sam.py:1026-1036)
 
-@contract("aldy.sam._in_region", symbolic=False)
+@contract("aldy.sam._in_region")
 def _(region, read, prefix):
+    types(read="AlignedSegment")
     requires(region.start <= region.end)
     requires(read.reference_end is None or read.reference_start <= read.reference_end)
     aligned = read.reference_id != -1 and read.reference_end is not None
